@@ -120,6 +120,7 @@ func Dot(spec *Spec, w io.WriteCloser, fromNode, toNode string) error {
 			} else {
 				src = fmt.Sprintf("%#v", x)
 			}
+			src = strings.Replace(src, "&", `&amp;`, -1)
 			src = strings.Replace(src, "<", `&lt;`, -1)
 			src = strings.Replace(src, ">", `&gt;`, -1)
 			label += `<FONT POINT-SIZE="6">` +
@@ -198,6 +199,7 @@ func Dot(spec *Spec, w io.WriteCloser, fromNode, toNode string) error {
 					} else {
 						src = fmt.Sprintf("%#v", x)
 					}
+					src = strings.Replace(src, "&", `&amp;`, -1)
 					src = strings.Replace(src, "<", `&lt;`, -1)
 					src = strings.Replace(src, ">", `&gt;`, -1)
 					label += `<FONT POINT-SIZE="6">` +
